@@ -78,11 +78,12 @@ impl<'a, P: ?Sized + PathImpl> PathMutImpl<'a, P> {
 
 	pub fn push(&mut self, segment: &P::Segment) {
 		// Disambiguate if the path is empty and one of the following is true:
-		// - `segment` looks like a scheme and path is a the start.
+		// - `segment` contains a colon and path is a the start.
 		// - `segment` is empty, path is absolute and following an authority.
 		// - `segment` is empty, path is relative.
 		let disambiguate = self.is_empty()
-			&& ((self.start == 0 && segment.looks_like_scheme()) || segment.is_empty());
+			&& ((self.start == 0 && parse::first_segment_contains_colon(segment.as_bytes()))
+				|| segment.is_empty());
 
 		if disambiguate {
 			let start = self.first_segment_offset();
